@@ -653,7 +653,14 @@ func (r *run) encodedLen(l *raft.Log) int {
 	return buf.Len()
 }
 
-func keyBytes(k int) []byte { return []byte(fmt.Sprintf("key-%d", k)) }
+// keyBytes: key 2 is the name under which the bolt store keeps the segment metadata in its own bucket ("m"):
+// the stable map is isolated from the log's bookkeeping for every key, also one that collides with an internal name.
+func keyBytes(k int) []byte {
+	if k == 2 {
+		return []byte("m")
+	}
+	return []byte(fmt.Sprintf("key-%d", k))
+}
 func valBytes(v int) []byte {
 	if v == 0 {
 		return nil
